@@ -101,7 +101,7 @@ def poisson_patch(ctx, rng, kind, ename, deg, perdir):
     # several splits of the boundary with ONE assembled system, constrained by condense or by enforce
     for rep in range(3):
         Dfac, Nfac = split_boundary(rng, m)
-        how = rng.choice(["condense", "condense", "enforce"])
+        how = rng.choice(["condense", "condense", "enforce", "condense(I, expand=False)"])
         descr = dict(descr, dirichlet_facets=Dfac, neumann_facets=Nfac, constrained_by=how, split_number=rep)
         b = b0
         if Nfac:
@@ -114,8 +114,17 @@ def poisson_patch(ctx, rng, kind, ename, deg, perdir):
         x[dofs.flatten()] = proj[dofs.flatten()]
         if how == "condense":
             sol = solve(*condense(A, b, x=x, D=dofs))
-        else:
+        elif how == "enforce":
             sol = solve(*enforce(A, b, x=x, D=dofs))
+        else:
+            # the kept set named explicitly, in the caller's (not ascending) order; the caller scatters the
+            # reduced solution with that same index array
+            I = [int(i) for i in np.setdiff1d(np.arange(basis.N), dofs.flatten())]
+            rng.shuffle(I)
+            I = np.array(I, dtype=np.int64)
+            AII, bI = condense(A, b, x=x, I=I, expand=False)
+            sol = x.copy()
+            sol[I] = solve(AII, bI)
         err = float(np.abs(sol - xstar).max())
         ctx.count("patch:" + descr["problem"])
         ctx.count("patch-constrained-by:" + how)
